@@ -41,9 +41,10 @@ const rule = "case = rapid-drawn (key pool, 120-400 primary client steps: puts o
 	"empty heartbeat messages; 0-2 healthy replicas (real replication.Manager + engine) attached before the first step; one fault-injected replica " +
 	"attached before a drawn step of the first third: stalled_reader (StreamWAL opened, Recv never called), tcp_stall (real replica behind a TCP proxy " +
 	"that stops reading and forwarding at a drawn step, sockets left open), tcp_reset (proxy resets every socket), no_ack (reads, never acknowledges), " +
-	"slow_apply (real Replica whose applier sleeps 5-100 ms per entry), none); executed in a child process over loopback TCP; " +
+	"slow_apply (real Replica whose applier sleeps 5-100 ms per entry), tcp_stall_quiet (blackholed right after registration and before the first write; " +
+	"clause 2 judged before the workload), none); executed in a child process over loopback TCP; " +
 	"oracle = (1) every Put/Get/Commit on the primary returns within 10 s without error, (2) GetNodeInfo no longer lists the faulty replica " +
-	"10 x heartbeat timeout after the workload (classes stalled_reader, tcp_stall, tcp_reset, no_ack), (3) every healthy replica equals the primary " +
+	"10 x heartbeat timeout after the workload (classes stalled_reader, tcp_stall, tcp_reset, no_ack, tcp_stall_quiet), (3) every healthy replica equals the primary " +
 	"(gets + full scan) within 60 s + 3 s per 100 steps and still 2 s later. " +
 	"non-trivial = a fault class other than none with more than 2 MiB of payload written after the fault became active; distinct by FNV-64 of the case JSON"
 
